@@ -2,7 +2,7 @@
 who-may-call the unchecked converters (R-NOCALL)."""
 import re
 from facts import cres, cdef, op_local
-from rules import table as TB, tablerules as TR
+from rules import table as TB, tablerules as TR, bitfield
 from rules.table import T, Undecided
 
 CATS = ['Nan', 'Infinite', 'Zero', 'Subnormal', 'Normal']
@@ -181,7 +181,7 @@ def run(ctx):
                        'assembled little-endian by the checker and compared with 5^k (k = the scale literal used in the same function) -- constant '
                        'evaluation of source literals, no bigdecimal code runs. R-TABLE: the FpCategory dispatch of try_parse_from_f32/f64 is '
                        'extracted from the CFG and checked for all 5 categories. R-NOCALL: the unchecked converters are only called through the '
-                       'classifiers; TryFrom/FromPrimitive float entries forward to them. NOT decided: mantissa/exponent arithmetic, all of to_f64.')
+                       'classifiers; TryFrom/FromPrimitive float entries forward to them. BITFIELD: a bit-provenance (known-bits) dataflow over the values derived from to_bits() shows, for binary32 and binary64, that the mantissa is bits 0..M-1 plus the implicit bit, the exponent is bits M..M+E-1 minus (bias + M), the sign is decided by the top bit alone (clear -> Plus), the subnormal magnitude is the representation with exactly the sign bit cleared, and the +-0 test looks at every bit but the sign. NOT decided: the power-of-two/five scaling after the split, all of to_f64.')
     F = ctx.facts('default', 'rel')
     n1 = const_tables(rep, F)
     n2 = classifier_tables(rep, F)
@@ -189,4 +189,6 @@ def run(ctx):
     rep.floor('literal power tables', n1, 2)
     rep.floor('classifier cells', n2, 10)
     rep.floor('who-may-call instances', n3, 8)
+    n4 = bitfield.check(rep, F)
+    rep.floor('IEEE-754 field obligations', n4, 12)
     rep.extra['exhaustive_table'] = True
